@@ -16,7 +16,7 @@ func init() { register("C14", runC14) }
 // C14: all 65 536 lifecycle values through the state mapping, the validator,
 // both profiles' setters and getters, and getter/Validate on a decoded claim.
 func runC14(c *mon.Ctx) {
-	c.Rule("exhaustive: every uint16 lifecycle value v through LifeCycleToState, IsValid, String, ValidateSecurityLifeCycle, P1/P2 setter+getter, and getter+Validate of a CBOR-decoded token carrying v; distinct = distinct (value) cases, non-trivial = all (each value exercises 10 calls)")
+	c.Rule("exhaustive: every uint16 lifecycle value v through LifeCycleToState, IsValid, String, ValidateSecurityLifeCycle, P1/P2 setter+getter on a fresh object and on objects that already hold the same / a neighbouring / a valid value, and getter+Validate of a CBOR-decoded token carrying v; distinct = distinct (value) cases, non-trivial = all (each value exercises 10 calls)")
 	c.Exhaustive(true)
 	c.Floor("values", 65536)
 	g := model.NewGen(c.Seed)
@@ -81,6 +81,35 @@ func runC14(c *mon.Ctx) {
 					}
 				} else if obs.ClassOf(gerr) != model.MissingMandatory {
 					bad(fmt.Sprintf("P%d.Get-after-failed-Set", p), fmt.Sprint(got, gerr))
+				}
+				// the setter on an object that ALREADY holds a value (the same one, or
+				// another one, valid or not - put there by decoding or by direct field
+				// assignment) must judge the new value exactly as on a fresh object
+				for _, pre := range []uint16{u, u ^ 0x0100, 0x3000} {
+					pre := pre
+					o, _ := psatoken.NewClaims(name)
+					if q := obs.P1Of(o); q != nil {
+						q.SecurityLifeCycle = &pre
+					} else if q := obs.P2Of(o); q != nil {
+						q.SecurityLifeCycle = &pre
+					}
+					serr := o.SetSecurityLifeCycle(u)
+					c.Eval()
+					if (serr == nil) != (want >= 0) {
+						bad(fmt.Sprintf("P%d.SetSecurityLifeCycle-on-preloaded-object", p), fmt.Sprintf("preloaded 0x%04x: %v", pre, serr))
+					}
+					got, gerr := o.GetSecurityLifeCycle()
+					if want >= 0 && (gerr != nil || got != u) {
+						bad(fmt.Sprintf("P%d.Get-after-Set-on-preloaded-object", p), fmt.Sprint(got, gerr))
+					}
+					if want < 0 && serr != nil && pre != u {
+						// a refused value must leave the previous one in place
+						if q := obs.P1Of(o); q != nil && (q.SecurityLifeCycle == nil || *q.SecurityLifeCycle != pre) {
+							bad(fmt.Sprintf("P%d.failed-Set-changed-preloaded-value", p), "changed")
+						} else if q := obs.P2Of(o); q != nil && (q.SecurityLifeCycle == nil || *q.SecurityLifeCycle != pre) {
+							bad(fmt.Sprintf("P%d.failed-Set-changed-preloaded-value", p), "changed")
+						}
+					}
 				}
 				// decoded token carrying the value
 				a := base[p].Clone()
